@@ -1,6 +1,6 @@
 #!/bin/bash
 # run every claimed quick check once, report exit codes and wall times
-cd /verif
+cd "$(dirname "$(readlink -f "$0")")"
 for p in $(python3 -c "import json; print(' '.join(c['property_id'] for c in json.load(open('MANIFEST.json'))['checks']))"); do
   s=$(date +%s); out=$(./check $p --tier ${1:-quick} 2>&1); rc=$?; e=$(date +%s)
   echo "$p rc=$rc $((e-s))s $(echo "$out" | grep -cE 'KNOWN-FINDING') known $(echo "$out" | grep -E 'VIOLATION|TOOL-ERROR|MODEL-MISMATCH|DRIFT' | cut -c1-160 | head -3)"
